@@ -7,10 +7,17 @@
    vec_update_spec / finish_time_step_spec: one per-bit record, and the end of a time step, hand the store only raw changes
    that carry the packed form of the vector's symbols at that moment (the premise `op_ok` of storage_transparent for
    raw changes) and keep every vector of the buffer packed.
+   read_signals_ops / read_signals_time_table (Proofs/GhwProofs.v): whatever the section bytes are, when read_signals
+   succeeds its blocks and time table are what finishing an encoder yields after a history of time stamps, raw changes
+   carrying the packed form of valid symbols, and doubles of 8 bytes (every value type: std_logic and bit scalars and vector
+   elements, 8-bit enumerations, integers, reals; snapshot, cycle, directory and tailer sections); hence the time table is
+   the strictly increasing list of accepted time stamps, and the storage theorems of C04 apply to each signal.
    NOT proved: that the sequence of dispatches reports each vector exactly once per time step with its final value (the
-   schedule: is_second_change / full_signal_has_changed / change list), the section grammar, the hierarchy; those are
-   decided by the correspondence run on signal sections and by the GHW file generator (MANIFEST level_note). *)
-From WV Require Import Model.Base Model.Bits Model.WaveMem Model.Ghw Proofs.BitsProofs Proofs.StoreProofs Proofs.RawProofs Proofs.VecProofs.
+   schedule: is_second_change / full_signal_has_changed / change list), that the history is the one the section bytes
+   encode in GHDL's sense, the hierarchy; those are decided by the correspondence run on signal sections and by the GHW
+   file generator (MANIFEST level_note). *)
+From WV Require Import Model.Base Model.Bits Model.WaveMem Model.Ghw Spec.TimeSpec Proofs.TimeTableProofs Proofs.BitsProofs Proofs.StoreProofs Proofs.RawProofs Proofs.VecProofs Proofs.GhwProofs.
+From Coq Require Import Sorted.
 Open Scope N_scope.
 
 Check compress_template_spec :
@@ -62,7 +69,24 @@ Check finish_time_step_spec :
   finish_time_step vb e = Ok (vb', e') ->
   exists ops, run_ops parse_f64 lz_compress cap e ops = Ok e' /\ Forall packed_raw ops /\ vbinv vb' S.
 
+(* the signal sections as a whole *)
+Check read_signals_ops :
+  forall parse_f64 lz_compress cap big_endian tpes sigs vectors input blocks ttb,
+  sigs_ok sigs (map (fun v : nat * nat * bool * nat => if snd (fst v) then Two else Nine) vectors) -> bytes_ok input ->
+  read_signals lz_compress cap big_endian tpes sigs vectors input = Ok (Some (blocks, ttb)) ->
+  exists ops e', run_ops parse_f64 lz_compress cap (enc_new tpes) ops = Ok e' /\ Forall ghw_op_ok ops /\
+                 enc_finish lz_compress e' = Ok (blocks, ttb).
+
+Check read_signals_time_table :
+  forall (parse_f64 : list byte -> option (list byte)) lz_compress cap, 1 <= cap ->
+  forall big_endian tpes sigs vectors input blocks ttb,
+  sigs_ok sigs (map (fun v : nat * nat * bool * nat => if snd (fst v) then Two else Nine) vectors) -> bytes_ok input ->
+  read_signals lz_compress cap big_endian tpes sigs vectors input = Ok (Some (blocks, ttb)) ->
+  exists ops, Forall ghw_op_ok ops /\ ttb = accepted (times_of ops) /\ StronglySorted N.lt ttb.
+
 Print Assumptions ve_set_spec.
+Print Assumptions read_signals_ops.
+Print Assumptions read_signals_time_table.
 Print Assumptions vec_update_spec.
 Print Assumptions finish_time_step_spec.
 Print Assumptions ve_get_spec.
